@@ -34,6 +34,18 @@ def rule_lookup(P) -> RuleResult:
                             'otherwise `*` is accepted by every function that takes any type (str(*), min(*), ...) and evaluates as NULL'), loc(eq))
             else:
                 res.ok({'primitive': 'Any.__eq__', 'other': label, 'result': other_is_class})
+    # the `*` pseudo-type is not a class: that is the only thing that keeps it out of `Any` parameters
+    import ast as _ast
+    ast_def = m.assigns.get('Asterisk')
+    is_class = 'Asterisk' in m.classes or (isinstance(ast_def, _ast.Call) and _ast.unparse(ast_def.func) in ('type', 'types.new_class', 'new_class'))
+    is_newtype = isinstance(ast_def, _ast.Call) and _ast.unparse(ast_def.func).split('.')[-1] == 'NewType'
+    if is_class:
+        res.fail(f'{TY}:Asterisk', 'lookup:any:asterisk', 'types.Asterisk is defined as a class: `Any == Asterisk` is then True and `*` is '
+                 'accepted by every function that takes any type (str(*), min(*), first(*) ...) and evaluates as NULL', loc(eq))
+    elif is_newtype:
+        res.ok({'primitive': 'Asterisk', 'defined_as': 'typing.NewType: not a class, so Any does not equal it'})
+    else:
+        raise AnalysisError('types.Asterisk: definition not understood (neither a class nor a typing.NewType)')
     # _bases
     bases = m.toplevel_funcs.get('_bases')
     if not bases:
